@@ -392,6 +392,51 @@ func c03Dispatch(c *mc.Ctx) []c03Family {
 			return b
 		}, bound: "all 256 AF flag bytes x adaptation_field_length 0..183 x 8 extension flag sets x 4 fills x afc {10,11}"})
 
+	// (1a) the same adaptation-field control bytes under every combination of the header's own flag bits
+	// (transport_error, payload_unit_start, transport_priority) and scrambling control: what the header says about
+	// the packet does not make a malformed adaptation field safe to walk into
+	{
+		ls := []int{0, 1, 2, 7, 20, 100, 182, 183, 184, 200, 255}
+		fams = append(fams, c03Family{name: "af-dispatch:header-flags", n: 8 * 4 * 256 * int64(len(ls)) * 2 * 2, cfgs: dataCfgs,
+			gen: func(i int64) []byte {
+				top := byte(i%8) << 5
+				i /= 8
+				scr := byte(i%4) << 6
+				i /= 4
+				flags := byte(i % 256)
+				i /= 256
+				l := ls[i%int64(len(ls))]
+				i /= int64(len(ls))
+				afc := byte(0x20 + 0x10*byte(i%2))
+				i /= 2
+				fill := []byte{0x00, 0xff}[i%2]
+				b := make([]byte, 188*3)
+				for k := range b {
+					b[k] = fill
+				}
+				b[0], b[1], b[2], b[3], b[4] = 0x47, top|0x01, 0x00, scr|afc|3, byte(l)
+				b[5] = flags
+				if flags&0x02 != 0 { // a private data length that overruns the field (behind whatever parts precede it)
+					pos := 6
+					if flags&0x10 != 0 {
+						pos += 6
+					}
+					if flags&0x08 != 0 {
+						pos += 6
+					}
+					if flags&0x04 != 0 {
+						pos++
+					}
+					b[pos] = 0xff
+				}
+				// a second packet of the same PID and a valid null packet
+				copy(b[188:], b[:188])
+				b[188+1] &^= 0x40
+				b[188+3] = b[3]&0xf0 | 4
+				b[376], b[377], b[378], b[379] = 0x47, 0x1f, 0xff, 0x10
+				return b
+			}, bound: "8 combinations of transport_error / payload_unit_start / priority x 4 scrambling values x all 256 AF flag bytes x 11 adaptation_field_length values x afc {10,11} x 2 fills; private data length overrunning the field"})
+	}
 	// (1b) the same control bytes on PIDs whose units go through the section-completeness test: PAT PID,
 	// a PMT PID announced by a preceding PAT, an SI PID; with and without payload_unit_start
 	patPkt := EncodePkts(Packetize(PSIUnit(0, 0, [][]byte{SecPAT(modelPAT(1, 0x1000), ref.SecHdr{CNI: true})}, nil), nil, new(uint8), true))
